@@ -111,10 +111,33 @@ func c07Run(cs c07Case) error {
 	return nil
 }
 
+// c07WithSiblings evaluates the recipe and then recipes that are easily
+// confused with it (same characters, differently split sets) in the same
+// process: Entropy() must depend on the recipe alone.
+func c07WithSiblings(cs c07Case) error {
+	if err := c07Run(cs); err != nil {
+		return err
+	}
+	for i, sib := range gen.Siblings(cs.Spec) {
+		if sib.EmptiedRequired() > 0 || len(sib.AlphabetSet()) == 0 {
+			continue
+		}
+		ev.Eval(1)
+		if err := c07Run(c07Case{sib}); err != nil && !ev.IsSkip(err) {
+			if _, inc := err.(*ev.Inc); inc {
+				return err
+			}
+			return fmt.Errorf("after Entropy() of %+v, the sibling recipe #%d %+v: %w", cs.Spec, i, sib, err)
+		}
+		ev.Class("sibling_recipes_evaluated")
+	}
+	return nil
+}
+
 func TestC07(t *testing.T) {
 	ev.Check(t, "c07_entropy", ev.N(48000, 600000), func(t *rapid.T) c07Case {
 		return c07Case{gen.CharSpec(t, gen.CharOpts{MaxLen: 64, MaxReq: 4, LongTail: 4000})}
-	}, c07Run)
+	}, c07WithSiblings)
 	ev.Check(t, "c07_many_sets", ev.N(160, 1600), func(t *rapid.T) c07Case {
 		c := gen.CharSpec(t, gen.CharOpts{MaxLen: 40, MaxReq: 8, NoHiBits: true})
 		c.Require = 0
